@@ -7,6 +7,7 @@ import ast
 from tiv.astutil import body_walk, call_name, dotted, enclosing_stmt, guards, norm, short, stores_in, walk_local
 from tiv.cfg import CFG, fmt_path
 from tiv.mutate import M
+from tiv.sem import trace, same_bool
 
 RULES = {
     "R1": "closed guard first: in seek/set_frame_duration/set_padding/set_render_args/set_render_size the `if self._closed: raise "
@@ -65,7 +66,8 @@ def run(ck, m):
           "__next__ on a finalized iterator must raise StopIteration", stmt="__next__: closed -> StopIteration")
 
     # ---- R3 ----------------------------------------------------------------------------
-    itf = m.get(IT, "RenderIterator._iterate")
+    from rules.c09 import iterate_facts
+    itf, _rc = iterate_facts(ck, m)          # locals renamed to their roles (frame, cache, frame_no, ...)
     ys = [s for s in itf.body if isinstance(s, ast.Expr) and isinstance(s.value, ast.Yield)]
     ck.need(len(ys) == 1 and norm(ys[0].value.value) == "DUMMY_FRAME", "_iterate: top-level dummy `yield DUMMY_FRAME` not found")
     yline = ys[0].lineno
@@ -75,7 +77,7 @@ def run(ck, m):
             pre[t.id] = st
     params = {a.arg for a in itf.args.args} - {"self"}
     post = [s for s in itf.body if s.lineno > yline]
-    ALLOWED = {"renderable", "frame_count", "definite", "loop", "CURRENT", "cache", "renderable_data", "render_data"}
+    ALLOWED = {"renderable", "frame_count", "definite", "loop", "CURRENT", "cache", "renderable_data", "render_data"}      # (names after role normalisation)
     used = {}
     for s in post:
         for n in walk_local(s):
@@ -142,13 +144,29 @@ def run(ck, m):
     ck.ob("R5", sb or isk, a is not None and a == b, f"seek target differs: Renderable.seek `{a}` vs RenderIterator.seek `{b}`", stmt="seek: sibling target expressions agree")
     ck.ob("R5", sa or rs, a == canon, f"seek target must be START: offset; CURRENT: current+offset; END: frame_count+offset-1; found `{a}`", stmt="seek: canonical target expression")
     for fn, nm in ((rs, "Renderable.seek"), (isk, "RenderIterator.seek")):
-        rt = [s for s in body_walk(fn) if isinstance(s, ast.If) and norm(s.test) == "not 0 <= frame < frame_count" and isinstance(s.body[0], ast.Raise)]
+        rt = [s for s in body_walk(fn) if isinstance(s, ast.If) and same_bool(fn, s.test, "not 0 <= frame < frame_count") and isinstance(s.body[-1], ast.Raise)]
         ck.ob("R5", fn, len(rt) == 1, f"{nm}: the range test must be `not 0 <= frame < frame_count` -> raise", stmt=f"{nm}: range test")
     ind = next((s for s in isk.body if isinstance(s, ast.If) and norm(s.test) == "frame_count is FrameCount.INDEFINITE"), None)
     ck.need(ind is not None, "RenderIterator.seek: INDEFINITE branch not found")
     rej = next((s for s in ind.body if isinstance(s, ast.If) and isinstance(s.body[0], ast.Raise)), None)
-    ck.ob("R5", rej or ind, rej is not None and norm(rej.test) == "whence is Seek.START and offset < 0 or (whence is Seek.END and offset > 0)",
-          f"INDEFINITE seeks must reject exactly START&offset<0 or END&offset>0; found `{norm(rej.test) if rej else None}`", stmt="seek[INDEFINITE]: rejection predicate")
+    okrej, wit = rej is not None, None
+    if rej is not None:
+        from tiv.absdom import EvUnk, ev
+        import itertools
+        rt_ = trace(isk, rej.test, keep=("whence", "offset"))
+        try:
+            for wh, off in itertools.product(("Seek.START", "Seek.CURRENT", "Seek.END"), (-1, 0, 1)):
+                got = bool(ev(rt_, {"whence": wh, "offset": off}))
+                want_ = (wh == "Seek.START" and off < 0) or (wh == "Seek.END" and off > 0)
+                if got != want_ and wit is None:
+                    wit = (wh, off, got)
+            okrej = wit is None
+        except EvUnk as e:
+            ck.expect(False, f"RenderIterator.seek: INDEFINITE rejection predicate not evaluable on the abstract domain ({e})")
+            okrej = None
+    if okrej is not None:
+        ck.ob("R5", rej or ind, okrej, f"INDEFINITE seeks must reject exactly START&offset<0 or END&offset>0; found `{norm(rej.test) if rej else None}`" + (f" - for whence={wit[0]}, offset={wit[1]} it gives {wit[2]}" if wit else ""),
+              stmt="seek[INDEFINITE]: rejection predicate")
     ups = [c for c in body_walk(isk) if isinstance(c, ast.Call) and norm(c.func) == "renderable_data.update"]
     want = {"frame_offset=offset, seek_whence=whence", "frame_offset=frame, seek_whence=Seek.START"}
     got = {", ".join(f"{k.arg}={norm(k.value)}" for k in c.keywords) for c in ups}
@@ -159,8 +177,8 @@ def run(ck, m):
     ck.ob("R5", isk, p is None, f"seek() can return normally without recording the seek ({fmt_path(p) if p else ''}): an accepted seek must take effect at the next render "
           "(and cancel a previously pending one), and an out-of-range one must be rejected", stmt="seek: every accepted seek is recorded")
     hand = [c for c in body_walk(itf) if isinstance(c, ast.Call) and norm(c.func) == "renderable_data.update"]
-    ok = len(hand) == 1 and {k.arg: norm(k.value) for k in hand[0].keywords} == {"frame_offset": "0", "seek_whence": "CURRENT"} and any(
-        norm(t) == "renderable_data.frame_offset or renderable_data.seek_whence != CURRENT" for t, b_ in guards(hand[0]))
+    ok = len(hand) == 1 and {k.arg: norm(trace(itf, k.value)) for k in hand[0].keywords} == {"frame_offset": "0", "seek_whence": "Seek.CURRENT"} and any(
+        b_ and same_bool(itf, t, "renderable_data.frame_offset or renderable_data.seek_whence != Seek.CURRENT") for t, b_ in guards(hand[0]))
     ck.ob("R5", hand[0] if hand else itf, ok, "after a render, a pending INDEFINITE seek must be reset to (0, CURRENT) under the was-seeked test (handed over exactly once)", stmt="_iterate: pending seek reset")
     # the reset happens after the render and before the yield of that frame
     if hand:
